@@ -37,7 +37,7 @@ func (c *Ctx) RulerPositions(prop string) {
 	seen := map[*ssa.Function]bool{}
 	var stage func(F *ssa.Function, depth int) bool
 	// storesOK validates the writes into the per-request list M of F
-	storesOK := func(F *ssa.Function, M *ssa.MakeSlice, dataP ssa.Value, validOther func(v ssa.Value) bool) bool {
+	storesOK := func(F *ssa.Function, M ssa.Value, dataP ssa.Value, validOther func(v ssa.Value) bool) bool {
 		good := true
 		for _, f := range WithClosures(F) {
 			wl, isWorker := scatterLoopIdx(f)
@@ -48,7 +48,7 @@ func (c *Ctx) RulerPositions(prop string) {
 						continue
 					}
 					ia, ok := st.Addr.(*ssa.IndexAddr)
-					if !ok || sliceRootExact(ia.X) != ssa.Value(M) {
+					if !ok || sliceRootExact(ia.X) != M {
 						continue
 					}
 					if k, ok := st.Val.(*ssa.Const); ok {
@@ -167,6 +167,16 @@ func (c *Ctx) RulerPositions(prop string) {
 					c.R.Unknown(rule, Fn(F), c.Pos(x), "the verdict list comes from a call that cannot be followed")
 					break
 				}
+				// a constructor: make([]Result, size) filled with refusing constants, called with len(rulesData)
+				if k := listCtorSizeParam(G, approved); k >= 0 && k < len(cc.Args) {
+					nlists++
+					if !lenIs(cc.Args[k], dataP) {
+						c.R.Fail(rule, Fn(F), c.Pos(x), "the verdict list does not have one slot per request", "newResults(len(rulesData))", nil)
+					} else {
+						okRoot = storesOK(F, x, dataP, func(v ssa.Value) bool { return valid(v, at) })
+					}
+					break
+				}
 				same := false
 				for _, a := range cc.Args {
 					if isDataList(a.Type()) {
@@ -231,4 +241,48 @@ func (c *Ctx) RulerPositions(prop string) {
 	}
 	stage(r.RunRules, 0)
 	c.R.Floor(rule, "verdict lists followed from RunRules", nlists, 3)
+}
+
+// listCtorSizeParam recognises a helper that returns make([]T, size) for an integer parameter `size`, filled only with
+// constants other than `approved`; it returns the parameter's position or -1.
+func listCtorSizeParam(G *ssa.Function, approved int64) int {
+	if G.Blocks == nil {
+		return -1
+	}
+	rets := an.Returns(G)
+	if len(rets) != 1 || len(rets[0].Results) != 1 {
+		return -1
+	}
+	mk, ok := sliceRootExact(an.Result(rets[0], 0)).(*ssa.MakeSlice)
+	if !ok {
+		return -1
+	}
+	k := -1
+	for i, p := range G.Params {
+		if mk.Len == ssa.Value(p) {
+			k = i
+		}
+	}
+	if k < 0 {
+		return -1
+	}
+	for _, f := range WithClosures(G) {
+		for _, b := range f.Blocks {
+			for _, ins := range b.Instrs {
+				st, ok := ins.(*ssa.Store)
+				if !ok {
+					continue
+				}
+				ia, ok := st.Addr.(*ssa.IndexAddr)
+				if !ok || sliceRootExact(ia.X) != ssa.Value(mk) {
+					continue
+				}
+				cst, isConst := st.Val.(*ssa.Const)
+				if !isConst || an.IsConstInt(cst, approved) {
+					return -1
+				}
+			}
+		}
+	}
+	return k
 }
